@@ -164,6 +164,7 @@ class VSelect:
 		with self.net.cond:
 			while True:
 				self.calls += 1
+				self.last = rlist
 				ready = [s for s in rlist if s.q]
 				if ready:
 					self.idle.clear()
